@@ -107,7 +107,7 @@ def _oracle(case, est=None):
     for l, Xe in eps.items():
         if Xe.shape[0] < m:
             continue
-        alone = pykoop.combine_episodes([(l, Xe)], episode_feature=ep)
+        alone = st.ref_combine([(l, Xe)], ep)
         Ta = est.transform(alone)[:, e:]
         if l not in eps_t:
             return f'episode {l} vanished'
@@ -115,14 +115,14 @@ def _oracle(case, est=None):
             return f'episode {l}: transform of the whole matrix differs from transform of the episode alone'
         # window locality for the last output sample
         if Xe.shape[0] > m:
-            win = pykoop.combine_episodes([(l, Xe[-m:, :])], episode_feature=ep)
+            win = st.ref_combine([(l, Xe[-m:, :])], ep)
             Tw = est.transform(win)[:, e:]
             if Tw.shape[0] != 1 or not np.allclose(Tw[0], eps_t[l][-1], rtol=1e-12, atol=1e-12):
                 return f'episode {l}: last lifted sample is not a function of the last min_samples_={m} samples'
     Xr = est.inverse_transform(Xt)
     eps_r = st.episodes(Xr, ep)
     for l in eps_t:
-        alone = pykoop.combine_episodes([(l, eps_t[l])], episode_feature=ep)
+        alone = st.ref_combine([(l, eps_t[l])], ep)
         Ra = est.inverse_transform(alone)[:, e:]
         if l not in eps_r or Ra.shape != eps_r[l].shape or not np.allclose(Ra, eps_r[l], rtol=1e-12, atol=1e-12):
             return f'episode {l}: inverse_transform of the whole matrix differs from the episode alone'
